@@ -582,6 +582,11 @@ fn run_inner(cfg: &Config, worker: usize, program: &[u8], w: &World, plan: &Plan
                 // a full device: every write fails with ENOSPC, by the kernel itself
                 Ok((Some(OwnedFd::from(fs::OpenOptions::new().write(true).open("/dev/full")?)), SinkHandle::Nothing))
             }
+            9 => {
+                // descriptor open, but not for writing (`1</dev/null`): every write fails with
+                // EBADF, which Rust's std treats on stdout/stderr like a closed descriptor
+                Ok((Some(OwnedFd::from(fs::File::open("/dev/null")?)), SinkHandle::Nothing))
+            }
             8 => {
                 // `>> file`: append mode, file not empty beforehand
                 let p = io_dir.join(name);
@@ -736,6 +741,16 @@ fn run_inner(cfg: &Config, worker: usize, program: &[u8], w: &World, plan: &Plan
         log: log_fd.as_raw_fd(),
     };
 
+    // another process holds an exclusive advisory lock on the script for the whole run
+    let _script_lock = if w.flock && lay.script.is_file() {
+        let f = fs::File::open(&lay.script)?;
+        unsafe {
+            libc::flock(f.as_raw_fd(), libc::LOCK_EX);
+        }
+        Some(f)
+    } else {
+        None
+    };
     let stack = w.stack;
     let opts = ChildOpts { rlimit: w.rlimit, sig: w.sig, umask: w.umask, fds: w.fds, uid: w.uid };
     let pid = unsafe { spawn(&exe_c, &argv, &envp, &cwd_c, &fds, stack, &opts) }?;
@@ -979,7 +994,7 @@ unsafe fn spawn(
             2 => lim(libc::RLIMIT_AS, 1 << 30),
             3 => lim(libc::RLIMIT_CPU, 60),
             4 => lim(libc::RLIMIT_NOFILE, 260),
-            5 => lim(libc::RLIMIT_FSIZE, 4 << 20),
+            5 => lim(libc::RLIMIT_FSIZE, 64 << 20),
             6 => lim(libc::RLIMIT_DATA, 128 << 20),
             _ => {}
         }
